@@ -9,6 +9,15 @@ from abmarl.sim import is_agent
 from .sar_wrapper import SARWrapper
 
 
+def _is_declared(null_point):
+    """
+    The empty dict stands for "no null point was given". Any other value was declared,
+    also one that is falsy (0, an all-zero list) or whose truth value is ambiguous
+    (a numpy array with more than one element).
+    """
+    return not (type(null_point) is dict and len(null_point) == 0)
+
+
 def flatdim(space):
     """
     Return the number of dimensions a flattened equivalent of this space
@@ -180,12 +189,12 @@ class FlattenWrapper(SARWrapper):
             self.agents[agent_id].observation_space = flatten_space(
                 wrapped_agent.observation_space
             )
-            if self.agents[agent_id].null_observation:
+            if _is_declared(self.agents[agent_id].null_observation):
                 self.agents[agent_id].null_observation = flatten(
                     self.sim.agents[agent_id].observation_space,
                     wrapped_agent.null_observation
                 )
-            if self.agents[agent_id].null_action:
+            if _is_declared(self.agents[agent_id].null_action):
                 self.agents[agent_id].null_action = flatten(
                     self.sim.agents[agent_id].action_space,
                     wrapped_agent.null_action
@@ -214,7 +223,7 @@ class FlattenActionWrapper(SARWrapper):
             if not is_agent(wrapped_agent): continue
             # Wrap the action spaces of the agents
             self.agents[agent_id].action_space = flatten_space(wrapped_agent.action_space)
-            if self.agents[agent_id].null_action:
+            if _is_declared(self.agents[agent_id].null_action):
                 self.agents[agent_id].null_action = flatten(
                     self.sim.agents[agent_id].action_space,
                     wrapped_agent.null_action
